@@ -36,6 +36,9 @@ package roundrobin
 //@   lockinv mutex (r): iter_ok: iterOK(r)
 //@   lockinv mutex (r): uniq: uniq(r)
 
+//@ type net/url.URL
+//@   stable Scheme Host Path
+
 //@ type server
 //@   immutable url
 //@   guarded_by RoundRobin.mutex: weight
@@ -167,3 +170,34 @@ package roundrobin
 //@   props C01 C02
 //@   modifies everything
 //@   ensures result == nil ==> defaultWeight == weight
+
+// ---- request path -------------------------------------------------------------------------
+
+//@ iface github.com/vulcand/oxy/v2/roundrobin/stickycookie.CookieValue.FindURL
+//@   params self raw urls
+//@   ensures from_pool: result0 == nil || (exists i int :: 0 <= i && i < len(urls) && result0 == urls[i])
+
+//@ functype roundrobin.RequestRewriteListener
+//@   params oldReq newReq
+//@   modifies everything
+//@   maypanic
+//@   ensures observer_only: newReq.URL == old(newReq.URL) && newReq.URL.Path == old(newReq.URL.Path) && newReq.URL.Host == old(newReq.URL.Host) && newReq.URL.Scheme == old(newReq.URL.Scheme)
+
+//@ func (*StickySession).GetBackend
+//@   props C02 C11
+//@   requires s != nil && req != nil
+//@   ensures present_iff: result1 <==> (result0 != nil)
+//@   ensures from_pool: result0 != nil ==> (exists i int :: 0 <= i && i < len(servers) && result0 == servers[i])
+
+//@ func (*RoundRobin).ServeHTTP
+//@   props C02 C11 C20
+//@   requires req != nil
+//@   modifies everything
+//@   ensures one_outcome: calls(r.next.ServeHTTP) + calls(r.errHandler.ServeHTTP) == 1
+//@   ensures error_only_without_server: calls(r.errHandler.ServeHTTP) == 1 ==> calls(NextServer) == 1 && callres(NextServer, 0, 1) != nil
+//@   at_call r.next.ServeHTTP routed_to_selection: (calls(NextServer) == 1 && callres(NextServer, 0, 1) == nil && arg1.URL == callres(NextServer, 0, 0)) || (calls(NextServer) == 0 && callres(GetBackend, 0, 1) && sameID(arg1.URL, callres(GetBackend, 0, 0)))
+//@   at_call r.next.ServeHTTP fresh_url: fresh(arg1.URL)
+
+//@ extern (*net/http.Request).Cookie
+//@   params req name
+//@   ensures cookie_or_error: (result1 == nil) <==> (result0 != nil)
